@@ -165,3 +165,8 @@ impl<'a> PrettyPrinter<'a> {
         self.arena.text(literal)
     }
 }
+
+#[cfg(feature = "verif-hooks")]
+pub mod verif_hooks {
+    pub use super::comment::verif_hooks::*;
+}
